@@ -78,6 +78,7 @@ MCCat19 == << [T |-> X1, vals |-> XVals, cfg |-> "default"], [T |-> X2, vals |->
 \* the option changes neither the encoding nor what is decoded (the model has no interning at all: that is the specification)
 InternTransparent == \A j \in 1..Len(XVals) : Encode(Cfg0, Bake(X1, ""), XVals[j]) = Encode(Cfg0, Bake(X2, ""), XVals[j])
 Quick19 == {1, 3, 4}
+Thorough19 == {1, 2, 3, 4, 5}
 
 \* ---- C17: the same types used through instances with different options and registrations ----
 MkT == [k |-> "marked"]
@@ -134,7 +135,9 @@ ScopedDiffer == /\ Encode(CfgN("default"), Bake(TA, ""), TAv) # Encode(CfgN("mk"
                 /\ Encode(CfgN("default"), Bake(TA, ""), TAv) # Encode(CfgN("mkkind"), Bake(TA, ""), TAv)
 AllIdx == 1..Len(Cat)
 QuickIdx == {1, 4, 5, 6, 9, 13, 14}
+ThoroughIdx == {1, 2, 4, 5, 6, 8, 9, 12, 13, 14, 15, 18}
 Quick17 == {1, 2, 5, 7, 16, 19, 21}
+Thorough17 == {1, 2, 3, 4, 5, 7, 9, 13, 15, 16, 19, 21}
 View == sysvars
 ASSUME PrintT(<<"CATALOGUE", ToJson(Cat)>>)
 \* a history is emitted when it cannot be extended (MaxSteps reached); prefixes are judged as part of it
